@@ -20,7 +20,7 @@ FUNCTIONS = ["models.handle_activation", "models.make_conv", "models.ConvBlock._
              "models.DilResNet.__init__/__call__", "geometric.signature_union", "MultiImage.concat", "MultiImage.__add__", "MultiImage.copy",
              "ml.layers.ConvContract.__init__", "ml.layers.GroupNorm.__init__", "ml.layers.VectorNeuronNonlinear.__init__ (real constructors; __call__ replaced by contract)"]
 TRUSTED = ["CPython for the concrete part", "structured-array engine", "z3", "composition of relational contracts (meta-argument)", "layer contracts: C06, C08, C11"]
-ASSUMPTIONS = ["layer contracts of C06 / C08 (ConvContract, GroupNorm/LayerNorm except pseudo-scalars, VectorNeuronNonlinear, MaxNormPool[assumed+bounded])",
+ASSUMPTIONS = ["layer contracts of C06 / C08 (ConvContract, GroupNorm/LayerNorm except pseudo-scalars, VectorNeuronNonlinear, MaxNormPool[C08, no norm ties])",
                "architectures enumerated", "the filter banks are invariant under the group"]
 EXPLANATION = "Unbounded in depth, channels, extents, filter counts, parameters; enumerated in architecture configurations and group elements."
 GRID = {"quick": "D=2; 14 architecture configurations x {rotation by 90, reflection}",
